@@ -1628,4 +1628,43 @@ func genC15(r *rng, tier string, emit func(string)) {
 			emit(fmt.Sprintf("chmod %s %s comp:%s", cb[0], cb[1], c))
 		}
 	}
+	// ServerHello fields, seen by a client that offered a given suite list (every list holds a suite the server can
+	// serve, so that there is a genuine ServerHello to rewrite)
+	type shSet struct {
+		kind   string
+		offers []string
+		suites []int
+	}
+	for _, ss := range []shSet{
+		{"gm", []string{"-", "e053", "e013", "e013.e053", "e053.e013", "e053.e011", "e051.e013"},
+			[]int{0xe013, 0xe053, 0xe011, 0xe051, 0xe0ff, 0xc02f, 0x0000, 0xffff}},
+		{"tls", []string{"-", "c02f", "009c", "c02f.009c", "cca8.c014", "0005.c014", "c02b.c02f"},
+			[]int{0xcca8, 0xc02f, 0xc030, 0xc014, 0x009c, 0x002f, 0xc02b, 0x0005, 0xc013, 0xe013, 0x1301, 0x0000, 0xffff}},
+	} {
+		for oi, of := range ss.offers {
+			for si, su := range ss.suites {
+				if thorough || oi < 2 || (si+oi)%3 == 0 {
+					emit(fmt.Sprintf("shmod %s %s suite:%04x", ss.kind, of, su))
+				}
+			}
+			for _, c := range []int{0, 1, 0xff} {
+				if thorough || oi < 2 {
+					emit(fmt.Sprintf("shmod %s %s comp:%02x", ss.kind, of, c))
+				}
+			}
+			if oi < 2 || thorough {
+				vs := []int{0x0000, 0x0100, 0x0101, 0x0102, 0x0200, 0x02ff, 0x0300, 0x0301, 0x0302, 0x0303, 0x0304, 0x0400, 0xffff}
+				if thorough && oi < 2 {
+					vs = nil
+					for v := 0; v <= 0x0400; v++ {
+						vs = append(vs, v)
+					}
+					vs = append(vs, 0x1000, 0xffff)
+				}
+				for _, v := range vs {
+					emit(fmt.Sprintf("shmod %s %s vers:%04x", ss.kind, of, v))
+				}
+			}
+		}
+	}
 }
